@@ -263,8 +263,12 @@ TxEndpoint(r, h, k) ==
 
 Tx(r) ==
     IF r.res # "ok"
-    THEN \* the transport refused the datagram (EMSGSIZE): nothing was emitted
-         UNCHANGED <<run, now, meta, eps, sendIdx, app, infl, sk, pairs, last>> /\ NoJudge
+    THEN \* the transport refused the datagram (EMSGSIZE): nothing was emitted.  (A RESET the dispatcher owed for a
+         \* refused SYN counts as attempted: it cannot do more.)
+         LET h0 == ParseMessage(r.hdr, r.len) so0 == Sock(r.from) IN
+         /\ UNCHANGED <<run, now, meta, eps, sendIdx, app, infl, pairs, last>> /\ NoJudge
+         /\ IF h0.ok /\ h0.type = ST_RESET /\ ~Has(r, "raw") /\ <<r.ft, h0.cid>> \notin DOMAIN sendIdx
+            THEN SetSock(r.from, ResetSent(so0, r.to, h0.cid, h0.ack)) ELSE UNCHANGED sk
     ELSE
     LET h == ParseMessage(r.hdr, r.len)
         skey == IF h.ok THEN <<r.ft, h.cid>> ELSE <<>>
@@ -281,7 +285,10 @@ Tx(r) ==
            ELSE /\ (IF raw THEN NoJudge
                     ELSE Judge(<<r.ft, h.cid>>, { <<"C11.EmitWellFormed", TRUE, TRUE>>,
                                                  \* C13 "the excess is refused with a reset": a dispatcher RESET answers a refused SYN
-                                                 <<"C13.ResetMatches", isRst, R_C13_ResetMatches(so, r.to, h.cid, h.ack)>> }))
+                                                 <<"C13.ResetMatches", isRst, R_C13_ResetMatches(so, r.to, h.cid, h.ack)>>,
+                                                 \* C11 "carries the connection id owed to its direction": the refused initiator
+                                                 \* receives on the id of its own SYN
+                                                 <<"C11.EmitConnId", isRst, R_C13_ResetMatches(so, r.to, h.cid, h.ack)>> }))
                 /\ infl' = IF r.fate \in {"deliver", "dup"} THEN Put(infl, r.id, <<r.ft, h.cid>>) ELSE infl
                 /\ (IF isRst THEN SetSock(r.from, ResetSent(so, r.to, h.cid, h.ack)) ELSE UNCHANGED sk)
                 /\ UNCHANGED <<eps, last>>
